@@ -185,4 +185,497 @@ theorem benign_preserves_new (D : Defaults) (p : Probe) (s : HState) (o : OpO)
         · intro hc
           exact hen _ hc (List.mem_map.2 ⟨t, ht, rfl⟩)
 
+/-- **Benign operations keep the state clean (probe on the existing executor `e₀`).** -/
+theorem benign_preserves_on (D : Defaults) (p : Probe) (e₀ : Nat) (s : HState) (o : OpO)
+    (hc : cleanOn D p s e₀ = true) (hb : benignNew D p s o = true) (hb2 : benignOn D p e₀ s o = true) :
+    cleanOn D p (stepO D s o) e₀ = true := by
+  obtain ⟨ex₀, he₀, hbk, hr, hn, hx, hj, hf⟩ := (cleanOn_iff D p s e₀).1 hc
+  rw [regCleanOn_iff] at hr; rw [nsClean_iff] at hn; rw [xmdClean_iff] at hx
+  rw [cleanOn_iff]
+  cases o with
+  | new b' =>
+    have hb' : b' = p.b ∨ ∀ k ∈ p.q.keys, k ∉ dkeys D b' := by
+      simpa [benignNew, List.all_eq_true] using hb
+    refine ⟨ex₀, ?_, hbk, ?_, ?_, ?_, hj, hf⟩
+    · show (s.execs ++ [_])[e₀]? = some ex₀
+      rw [List.getElem?_append_left (lt_length_of_getElem? _ _ _ he₀)]; exact he₀
+    · rw [regCleanOn_iff]
+      intro k hk
+      show alookup (ainsertAll s.reg (D b')) k = alookup (defaultsReg D p.b) k
+      by_cases hd : k ∈ dkeys D b'
+      · rcases hb' with h | h
+        · rw [h] at hd ⊢
+          exact alookup_ainsertAll_of_mem (D p.b) _ _ k hd
+        · exact absurd hd (h k hk)
+      · rw [alookup_ainsertAll_of_not_mem (D b') _ k hd]; exact hr k hk
+    · rw [nsClean_iff]; exact hn
+    · rw [xmdClean_iff]; exact hx
+  | addXmd e x =>
+    cases he : s.execs[e]? with
+    | none =>
+      have e1 : stepO D s (.addXmd e x) = s := by simp only [stepO, addXmd, he]
+      rw [e1]; exact ⟨ex₀, he₀, hbk, (regCleanOn_iff D p s).2 hr, (nsClean_iff p s).2 hn, (xmdClean_iff p _).2 hx, hj, hf⟩
+    | some ex =>
+      by_cases hs : ex.xmdShared = true
+      · have hb' : ∀ k ∈ mdKinds p.md, k ∉ akeys x := by
+          simpa [benignOn, he, hs, List.all_eq_true] using hb2
+        have e1 : stepO D s (.addXmd e x) = { s with sharedXmd := ainsertAll s.sharedXmd x } := by
+          simp only [stepO, addXmd, he, hs, if_true]
+        rw [e1]
+        refine ⟨ex₀, he₀, hbk, (regCleanOn_iff D p _).2 hr, (nsClean_iff p _).2 hn, ?_, hj, hf⟩
+        rw [xmdClean_iff]
+        intro k hk
+        rcases hx k hk with h | h
+        · exact Or.inl h
+        · right
+          by_cases hs0 : ex₀.xmdShared = true
+          · simp only [effXmd, hs0, if_true] at h ⊢
+            rw [alookup_ainsertAll_of_not_mem x _ k (hb' k hk)]; exact h
+          · have hs0' : ex₀.xmdShared = false := by simpa using hs0
+            simp only [effXmd, hs0', Bool.false_eq_true, if_false] at h ⊢
+            exact h
+      · have hs' : ex.xmdShared = false := by simpa using hs
+        have e1 : stepO D s (.addXmd e x) = { s with execs := s.execs.set e { ex with xmdOwn := ainsertAll ex.xmdOwn x } } := by
+          simp only [stepO, addXmd, he, hs', Bool.false_eq_true, if_false]
+        rw [e1]
+        by_cases hee : e = e₀
+        · subst hee
+          have hex : ex = ex₀ := by rw [he] at he₀; exact Option.some.inj he₀
+          subst hex
+          have hb' : ∀ k ∈ mdKinds p.md, k ∉ akeys x := by
+            simpa [benignOn, he, hs', List.all_eq_true] using hb2
+          refine ⟨_, getElem?_set_self' _ _ _ _ he, hbk, (regCleanOn_iff D p _).2 hr, (nsClean_iff p _).2 hn, ?_, hj, hf⟩
+          rw [xmdClean_iff]
+          intro k hk
+          rcases hx k hk with h | h
+          · exact Or.inl h
+          · right
+            simp only [effXmd, hs', Bool.false_eq_true, if_false] at h ⊢
+            rw [alookup_ainsertAll_of_not_mem x _ k (hb' k hk)]; exact h
+        · refine ⟨ex₀, ?_, hbk, (regCleanOn_iff D p _).2 hr, (nsClean_iff p _).2 hn, (xmdClean_iff p _).2 hx, hj, hf⟩
+          show (s.execs.set e _)[e₀]? = some ex₀
+          rw [getElem?_set_ne' _ _ _ _ hee]; exact he₀
+  | translate e q md r =>
+    cases he : s.execs[e]? with
+    | none =>
+      rw [stepO_translate_noExec D s e q md r he]
+      exact ⟨ex₀, he₀, hbk, (regCleanOn_iff D p s).2 hr, (nsClean_iff p s).2 hn, (xmdClean_iff p _).2 hx, hj, hf⟩
+    | some ex =>
+      obtain ⟨fx, fn, fr, fe⟩ := stepO_translate_fields D s e q md r ex he
+      have hb' : (∀ t ∈ enumTops md, t ∉ p.q.names.map some) ∧
+          (if reachedStage s ex md r = some .done then
+             (ex.backend = p.b ∨ ∀ k ∈ p.q.keys, k ∉ dkeys D ex.backend)
+           else ∀ k ∈ p.q.keys, k ∉ declKeys md) := by
+        have := hb
+        simp only [benignNew, he, Bool.and_eq_true, List.all_eq_true, decide_eq_true_eq] at this
+        refine ⟨this.1, ?_⟩
+        have h2 := this.2
+        split at h2
+        · rename_i hd; simp only [hd, if_true]
+          simpa [List.all_eq_true] using h2
+        · rename_i hd; simp only [hd, if_false]
+          simpa [List.all_eq_true] using h2
+      obtain ⟨hen, hreg⟩ := hb'
+      -- registry and namespaces
+      have hreg' : regCleanOn D p (stepO D s (.translate e q md r)) = true := by
+        rw [regCleanOn_iff, fr]
+        intro k hk
+        by_cases hdone : reachedStage s ex md r = some .done
+        · simp only [hdone, if_true] at hreg ⊢
+          have hb3 : ex.backend = p.b ∨ ∀ k ∈ p.q.keys, k ∉ dkeys D p.b := by
+            have := hb2
+            simp only [benignOn, he, hdone, Bool.and_eq_true, Bool.or_eq_true, decide_eq_true_eq, List.all_eq_true] at this
+            rcases this.1 with (h | h) | h
+            · exact absurd rfl h
+            · exact Or.inl h
+            · exact Or.inr h
+          rcases hb3 with h | h
+          · rw [h]
+          · rcases hreg with h' | h'
+            · rw [h']
+            · rw [alookup_defaultsReg_of_not_mem D _ k (h' k hk), alookup_defaultsReg_of_not_mem D _ k (h k hk)]
+        · simp only [hdone, if_false] at hreg ⊢
+          unfold mdOf
+          rw [mdRun_reg _ md k _ 0 (hreg k hk)]; exact hr k hk
+      have hns' : nsClean p (stepO D s (.translate e q md r)) = true := by
+        rw [nsClean_iff, fn]
+        intro t ht
+        unfold mdOf
+        rw [mdRun_ns _ md t _ 0 ?_]
+        · exact hn t ht
+        · intro hc'
+          exact hen _ hc' (List.mem_map.2 ⟨t, ht, rfl⟩)
+      -- the executor
+      cases hst : reachedStage s ex md r with
+      | none =>
+        rw [hst] at fe
+        refine ⟨ex₀, by rw [fe]; exact he₀, hbk, hreg', hns', ?_, hj, hf⟩
+        rw [effXmd_congr s _ ex₀ ex₀ fx rfl rfl]; exact (xmdClean_iff p _).2 hx
+      | some st =>
+        rw [hst] at fe
+        by_cases hee : e = e₀
+        · subst hee
+          have hex : ex = ex₀ := by rw [he] at he₀; exact Option.some.inj he₀
+          subst hex
+          have hb3 : (st = .transform ∨ ∀ f ∈ xitemsOf (specsOfRun s ex md), f.1 ∉ akeys p.xadd) ∧
+              (st ≠ .write ∨ jobsOf (specsOfRun s ex md) = []) := by
+            have := hb2
+            simp only [benignOn, he, hst, Bool.and_eq_true, Bool.or_eq_true, decide_eq_true_eq, List.all_eq_true,
+              List.isEmpty_iff, ne_eq, not_true_eq_false, false_or] at this
+            exact this.2
+          refine ⟨execAfter ex st (specsOfRun s ex md), by rw [fe]; exact getElem?_set_self' _ _ _ _ he,
+            by rw [execAfter_backend]; exact hbk, hreg', hns', ?_, ?_, ?_⟩
+          · rw [xmdClean_iff]
+            intro k hk
+            by_cases hdn : st = .done
+            · subst hdn
+              right; simp [effXmd, execAfter, alookup]
+            · obtain ⟨x1, x2⟩ := execAfter_xmd ex st (specsOfRun s ex md) hdn
+              rw [effXmd_congr s _ ex _ fx x1 x2]
+              exact hx k hk
+          · rw [execAfter_job]
+            cases st with
+            | transform => exact hj
+            | finder => exact hj
+            | write =>
+              rcases hb3.2 with h | h
+              · exact absurd rfl h
+              · simp [hj, h]
+            | done => rfl
+          · rw [execAfter_found]
+            split
+            · exact hf
+            · rename_i hnt
+              intro f hf'
+              rcases List.mem_append.1 hf' with h | h
+              · exact hf f h
+              · rcases hb3.1 with h' | h'
+                · exact absurd h' hnt
+                · exact h' f h
+        · refine ⟨ex₀, ?_, hbk, hreg', hns', ?_, hj, hf⟩
+          · rw [fe, getElem?_set_ne' _ _ _ _ hee]; exact he₀
+          · rw [effXmd_congr s _ ex₀ ex₀ fx rfl rfl]; exact (xmdClean_iff p _).2 hx
+
+theorem s₀_cleanNew (D : Defaults) (p : Probe) : cleanNew D p s₀ = true := by
+  rw [cleanNew_iff, regCleanNew_iff, nsClean_iff, xmdClean_iff]
+  exact ⟨fun _ _ => Or.inr rfl, fun _ _ => rfl, fun _ _ => Or.inr rfl⟩
+
+theorem benignRun_preserves_new (D : Defaults) (p : Probe) :
+    ∀ (h : List OpO) (s : HState), cleanNew D p s = true → benignRunNew D p s h = true →
+      cleanNew D p (runO D h s) = true := by
+  intro h
+  induction h with
+  | nil => intro s hc _; exact hc
+  | cons o h ih =>
+    intro s hc hb
+    simp only [benignRunNew, Bool.and_eq_true] at hb
+    exact ih _ (benign_preserves_new D p s o hc hb.1) hb.2
+
+/-- **History independence, new executor (partial).**  FULL STATEMENT (false, see the
+counterexamples): `∀ h p, runProbeNew D T (runO D h s₀) p = freshResult D T p`.
+PROVED: for every defaults table, every translator function, every probe and every finite history
+of operations — new executors of any backend, `add_extended_md`, translations with any metadata
+ending in success or in a failure at any stage — all of which are benign for the probe
+(`benignRunNew`, decidable), the probe translated on a new executor gives exactly the result of a
+fresh process.  MISSING: the operations `benignNew` excludes; each excluded clause is a
+`leak_counterexample_*` below. -/
+theorem history_indep_partial (D : Defaults) (T : Translator) (h : List OpO) (p : Probe)
+    (hb : benignRunNew D p s₀ h = true) : HistoryIndependentNew D T h p :=
+  clean_new_indep D T p _ (benignRun_preserves_new D p h s₀ (s₀_cleanNew D p) hb)
+
+/-- creating the executor the probe will run on, in a clean state, gives a clean executor -/
+theorem cleanOn_of_new (D : Defaults) (p : Probe) (s : HState) (hc : cleanNew D p s = true) :
+    cleanOn D p (newExec D s p.b) s.execs.length = true := by
+  obtain ⟨hr, hn, hx⟩ := (cleanNew_iff D p s).1 hc
+  rw [regCleanNew_iff] at hr; rw [nsClean_iff] at hn
+  rw [cleanOn_iff]
+  refine ⟨⟨p.b, [], [], true, [], []⟩, by simp [newExec], rfl, ?_, (nsClean_iff p _).2 hn, hx, rfl, by simp⟩
+  rw [regCleanOn_iff]
+  intro k hk
+  show alookup (ainsertAll s.reg (D p.b)) k = alookup (defaultsReg D p.b) k
+  by_cases hd : k ∈ dkeys D p.b
+  · exact alookup_ainsertAll_of_mem (D p.b) _ _ k hd
+  · rw [alookup_ainsertAll_of_not_mem (D p.b) _ k hd, alookup_defaultsReg_of_not_mem D _ k hd]
+    rcases hr k hk with h | h
+    · exact absurd h hd
+    · exact h
+
+theorem benignRun_preserves_on (D : Defaults) (p : Probe) (e₀ : Nat) :
+    ∀ (h : List OpO) (s : HState), cleanNew D p s = true → (e₀ < s.execs.length → cleanOn D p s e₀ = true) →
+      benignRunOn D p e₀ s h = true →
+      cleanNew D p (runO D h s) = true ∧ (e₀ < (runO D h s).execs.length → cleanOn D p (runO D h s) e₀ = true) := by
+  intro h
+  induction h with
+  | nil => intro s hc ho _; exact ⟨hc, ho⟩
+  | cons o h ih =>
+    intro s hc ho hb
+    simp only [benignRunOn, Bool.and_eq_true] at hb
+    obtain ⟨⟨hb1, hb2⟩, hb3⟩ := hb
+    refine ih _ (benign_preserves_new D p s o hc hb1) ?_ hb3
+    intro hlt
+    by_cases hl : e₀ < s.execs.length
+    · exact benign_preserves_on D p e₀ s o (ho hl) hb1 hb2
+    · have hlen := stepO_length D s o
+      cases o with
+      | new b' =>
+        simp only at hlen
+        have heq : s.execs.length = e₀ := by omega
+        have hbk : b' = p.b := by
+          simp only [benignOn, Bool.or_eq_true, decide_eq_true_eq] at hb2
+          rcases hb2 with h | h
+          · exact absurd heq h
+          · exact h
+        subst hbk; subst heq
+        exact cleanOn_of_new D p s hc
+      | addXmd e x => simp only at hlen; omega
+      | translate e q md r => simp only at hlen; omega
+
+/-- **History independence, existing executor (partial).**  FULL STATEMENT (false):
+`∀ h p e, e is an executor of p's backend → runProbeOn D T (runO D h s₀) p e = freshResult D T p`.
+PROVED: the same for every history all of whose operations satisfy `benignNew` and `benignOn … e`
+(decidable): the probe translated on the executor `e` that has lived through the whole history —
+with its earlier successes and failures — gives exactly the result of a fresh process. -/
+theorem history_indep_on_partial (D : Defaults) (T : Translator) (h : List OpO) (p : Probe) (e : Nat)
+    (hb : benignRunOn D p e s₀ h = true) (he : e < (runO D h s₀).execs.length) :
+    HistoryIndependentOn D T h p e :=
+  clean_on_indep D T p _ e ((benignRun_preserves_on D p e h s₀ (s₀_cleanNew D p) (by simp [s₀]) hb).2 he)
+
+/-! ### the same with the translator answering along the way -/
+
+theorem translateWith_answerOf (D : Defaults) (T : Translator) (s : HState) (e : Nat) (q : Query) (md : List MdItem) :
+    translateWith D (fun _ => answerOf T s e q md) s e q md = translateWith D (T q md) s e q md := by
+  cases he : s.execs[e]? with
+  | none => rw [translateWith_noExec D _ s e q md he, translateWith_noExec D _ s e q md he]
+  | some ex =>
+    cases hm : (mdOf s ex md).2 with
+    | some i => rw [translateWith_mdFail D _ s e q md ex i he hm, translateWith_mdFail D _ s e q md ex i he hm]
+    | none =>
+      have ha : answerOf T s e q md =
+          T q md (mkView ex.backend q (mdOf s ex md).1 (ex.job ++ jobsOf (mdOf s ex md).1.specs)) := by
+        simp only [answerOf, he]; rfl
+      rw [translateWith_run D _ s e q md ex he hm, translateWith_run D _ s e q md ex he hm]
+      simp only [ha]
+
+theorem run_eq_runO_record (D : Defaults) (T : Translator) :
+    ∀ (h : List Op) (s : HState), run D T h s = runO D (record D T h s) s := by
+  intro h
+  induction h with
+  | nil => intro s; rfl
+  | cons o h ih =>
+    intro s
+    cases o with
+    | new b => simp only [run, record, runO, step, stepO]; exact ih _
+    | addXmd e x => simp only [run, record, runO, step, stepO]; exact ih _
+    | translate e q md =>
+      simp only [run, record, runO, stepO, translateWith_answerOf]
+      exact ih _
+
+/-- **History independence with the translator in the loop (partial).**  The earlier
+translations succeed or fail as the translator function `T` itself decides in the state it finds
+(so an earlier leak may change an earlier outcome); if the history with those outcomes written down
+is benign for the probe, the probe's result is the fresh result. -/
+theorem history_indep_T_partial (D : Defaults) (T : Translator) (h : List Op) (p : Probe)
+    (hb : benignRunNew D p s₀ (record D T h s₀) = true) :
+    runProbeNew D T (run D T h s₀) p = freshResult D T p := by
+  rw [run_eq_runO_record]
+  exact history_indep_partial D T _ p hb
+
+/-! ### what `reset()` repairs -/
+
+theorem stage_of_ok (r : TRes) (w : Bool) (f : String) (h : outcomeOf r w = .ok f) : stageOf r.tag w = .done := by
+  unfold outcomeOf at h
+  unfold stageOf
+  cases ht : r.tag <;> cases w <;> simp_all
+
+/-- **`reset()` after a successful translation.**  Whatever the state was before (any registry
+contents left by any history): after a translation on executor `e` that ended `ok`, the registry is
+exactly the backend's defaults, the executor has no job-script blocks, no inject blocks, its own
+empty extended-metadata dict; other executors and the shared default dict are untouched.  NOT
+restored: `_found_extended_md` (only grows) and the namespace/enum registry. -/
+theorem reset_restores (D : Defaults) (o : View → TRes) (s : HState) (e : Nat) (q : Query) (md : List MdItem)
+    (ex : Exec) (f : String) (he : s.execs[e]? = some ex) (hok : (translateWith D o s e q md).2 = .ok f) :
+    (translateWith D o s e q md).1.reg = defaultsReg D ex.backend ∧
+    (translateWith D o s e q md).1.execs[e]? =
+      some { ex with job := [], inject := [], xmdShared := false, xmdOwn := [],
+                     found := ex.found ++ xitemsOf (mdOf s ex md).1.specs } ∧
+    (translateWith D o s e q md).1.sharedXmd = s.sharedXmd ∧
+    (translateWith D o s e q md).1.ns = (mdOf s ex md).1.ns ∧
+    ∀ e', e ≠ e' → (translateWith D o s e q md).1.execs[e']? = s.execs[e']? := by
+  cases hm : (mdOf s ex md).2 with
+  | some i => rw [translateWith_mdFail D o s e q md ex i he hm] at hok; cases hok
+  | none =>
+    rw [translateWith_run D o s e q md ex he hm] at hok ⊢
+    have hst := stage_of_ok _ _ f hok
+    refine ⟨by simp only [hst, if_true], ?_, rfl, rfl, ?_⟩
+    · show (s.execs.set e _)[e]? = _
+      rw [getElem?_set_self' _ _ _ _ he, hst]; rfl
+    · intro e' hne; exact getElem?_set_ne' _ _ _ _ hne
+
+/-- **One success heals the registry (partial).**  Take ANY state `s` — reached by any history
+whatsoever, with any leaked method types — in which no enum has been defined below a name the
+probe resolves and the shared default dict holds no kind the probe's metadata uses.  After one
+recorded translation that reaches `reset()` on an executor of the probe's backend (and defines no
+such enum itself), every benign continuation leaves the probe's result equal to the fresh one. -/
+theorem success_heals_partial (D : Defaults) (T : Translator) (p : Probe) (s : HState) (e : Nat) (q : Query)
+    (md : List MdItem) (r : TRes) (ex : Exec) (h₂ : List OpO)
+    (he : s.execs[e]? = some ex) (hbk : ex.backend = p.b) (hdone : reachedStage s ex md r = some .done)
+    (hen : ∀ t ∈ enumTops md, t ∉ p.q.names.map some)
+    (hn : nsClean p s = true) (hx : xmdClean p s.sharedXmd = true)
+    (hb : benignRunNew D p (stepO D s (.translate e q md r)) h₂ = true) :
+    runProbeNew D T (runO D (.translate e q md r :: h₂) s) p = freshResult D T p := by
+  apply clean_new_indep
+  apply benignRun_preserves_new D p h₂ _ _ hb
+  obtain ⟨fx, fn, fr, _⟩ := stepO_translate_fields D s e q md r ex he
+  rw [cleanNew_iff, regCleanNew_iff, nsClean_iff, fx, fn, fr]
+  rw [nsClean_iff] at hn
+  refine ⟨?_, ?_, hx⟩
+  · intro k hk
+    by_cases hd : k ∈ dkeys D p.b
+    · exact Or.inl hd
+    · right
+      simp only [hdone, if_true]
+      rw [hbk]; exact alookup_defaultsReg_of_not_mem D _ k hd
+  · intro t ht
+    unfold mdOf
+    rw [mdRun_ns _ md t _ 0 ?_]
+    · exact hn t ht
+    · intro hc
+      exact hen _ hc (List.mem_map.2 ⟨t, ht, rfl⟩)
+
+/-! ### state that never reaches the translator -/
+
+/-- **Inject blocks never leak**: `_inject_blocks` is replaced by every `apply_ast_transformations`
+before `write_cpp_files` reads it; whatever an earlier (failed) translation left there is invisible. -/
+theorem inject_never_leaks (D : Defaults) (T : Translator) (p : Probe) (s : HState) (e : Nat) (ex : Exec)
+    (inj : List (String × String)) (he : s.execs[e]? = some ex) :
+    runProbeOn D T { s with execs := s.execs.set e { ex with inject := inj } } p e = runProbeOn D T s p e := by
+  exact probe_congr D T p { s with execs := s.execs.set e { ex with inject := inj } } s e e
+    { ex with inject := inj } ex (getElem?_set_self' _ _ _ _ he) he rfl rfl
+    (fun _ _ => rfl) (fun _ _ => rfl) (fun _ _ _ => rfl) rfl
+
+/-- **The name counter is never read by the model's view**: results are independent of
+`unique_var_index` (the oracle compares generated files up to renumbering for exactly this reason). -/
+theorem counter_never_read (D : Defaults) (T : Translator) (p : Probe) (s : HState) (e : Nat) (ex : Exec) (n : Nat)
+    (he : s.execs[e]? = some ex) :
+    runProbeOn D T { s with counter := n } p e = runProbeOn D T s p e := by
+  exact probe_congr D T p { s with counter := n } s e e ex ex he he rfl rfl
+    (fun _ _ => rfl) (fun _ _ => rfl) (fun _ _ _ => rfl) rfl
+
+/-! ### the oracle -/
+
+/-- **The oracle accepts equal observations**: `agreeObs` (equality up to ONE bijective renumbering
+of generated names over all files, same ending, same extended metadata found) is reflexive — so it
+never rejects a result for being compared with itself, whatever text the files contain. -/
+theorem agreeObs_refl (o : Obs) : agreeObs o o = true := by
+  obtain ⟨m, hm, _⟩ := agreeFiles_refl o.files [] (fun _ h => by cases h)
+  simp [agreeObs, hm]
+
+/-- **The theorem in the oracle's terms**: after a benign history the probe's observation agrees
+(`agreeObs`, the predicate the harness evaluates on the IMPLEMENTATION's fresh-interpreter and
+after-history outputs) with the fresh one. -/
+theorem history_indep_agree_partial (D : Defaults) (T : Translator) (h : List OpO) (p : Probe)
+    (hb : benignRunNew D p s₀ h = true) :
+    agreeObs (obsOfResult (freshResult D T p)) (obsOfResult (runProbeNew D T (runO D h s₀) p)) = true := by
+  rw [history_indep_partial D T h p hb]; exact agreeObs_refl _
+
+/-! ### the full statement is false of the code: one counterexample per excluded class
+
+Each history below is replayed against the real code on every run (known_findings.jsonl, field
+`witness`); the driver checks that the replayed history has the shape of the literal used here. -/
+
+open Witness in
+/-- (a) A translation that declared `xAOD::Jet::pt → int` and then failed in `write_cpp_files`
+(so `reset()` was skipped) changes the next, unrelated query on a NEW executor. -/
+theorem leak_counterexample_failed_translation :
+    ∃ D T h p, ¬ HistoryIndependentNew D T h p :=
+  ⟨D₀, Tkey ("xAOD::Jet", "pt"), failedDecl.1, failedDecl.2, by unfold HistoryIndependentNew; decide⟩
+
+open Witness in
+/-- (a') The same when `process_metadata` itself raises after having applied the declaration. -/
+theorem leak_counterexample_failed_metadata :
+    ∃ D T h p, ¬ HistoryIndependentNew D T h p :=
+  ⟨D₀, Tkey ("xAOD::Jet", "pt"), failedDeclMd.1, failedDeclMd.2, by unfold HistoryIndependentNew; decide⟩
+
+open Witness in
+/-- (b) An enum defined by an earlier SUCCESSFUL query stays defined: a later query that uses the
+enum without declaring it translates instead of being refused. -/
+theorem leak_counterexample_enum :
+    ∃ D T h p, ¬ HistoryIndependentNew D T h p :=
+  ⟨D₀, Tenum "xAOD" "Red", enumStays.1, enumStays.2, by unfold HistoryIndependentNew; decide⟩
+
+open Witness in
+/-- (b') …and the first definition wins: a later query that declares the enum with more values is
+refused because its own declaration is ignored. -/
+theorem leak_counterexample_enum_first_wins :
+    ∃ D T h p, ¬ HistoryIndependentNew D T h p :=
+  ⟨D₀, Tenum "xAOD" "Blue", enumFirstWins.1, enumFirstWins.2, by unfold HistoryIndependentNew; decide⟩
+
+open Witness in
+/-- (c) A successful translation on a CMS executor resets the registry to the CMS defaults: the
+live ATLAS executor has lost `xAOD::TruthParticle::prodVtx`. -/
+theorem leak_counterexample_cross_backend_reset :
+    ∃ D T h p e, e < (runO D h s₀).execs.length ∧ ¬ HistoryIndependentOn D T h p e :=
+  ⟨D₀, Tkey ("xAOD::TruthParticle", "prodVtx"), crossBackendReset.1.1, crossBackendReset.1.2, crossBackendReset.2,
+    by decide, by unfold HistoryIndependentOn; decide⟩
+
+open Witness in
+/-- (c') Creating a CMS executor leaves the CMS defaults in the registry every later ATLAS query reads. -/
+theorem leak_counterexample_cross_backend_new :
+    ∃ D T h p, ¬ HistoryIndependentNew D T h p :=
+  ⟨D₀, Tkey ("reco::Muon", "globalTrack"), crossBackendNew.1, crossBackendNew.2, by unfold HistoryIndependentNew; decide⟩
+
+open Witness in
+/-- (d) `add_extended_md` on a never-reset executor mutates the constructor's default `{}`: every
+executor created afterwards accepts that metadata kind (fresh process: `ValueError`). -/
+theorem leak_counterexample_shared_default :
+    ∃ D T h p, ¬ HistoryIndependentNew D T h p :=
+  ⟨D₀, Tconst, sharedDefault.1, sharedDefault.2, by unfold HistoryIndependentNew; decide⟩
+
+open Witness in
+/-- (e) `_found_extended_md` is never reset: the executor reports the previous query's item. -/
+theorem leak_counterexample_found_md :
+    ∃ D T h p e, e < (runO D h s₀).execs.length ∧ ¬ HistoryIndependentOn D T h p e :=
+  ⟨D₀, Tconst, foundStays.1.1, foundStays.1.2, foundStays.2, by decide, by unfold HistoryIndependentOn; decide⟩
+
+open Witness in
+/-- (f) Job-script blocks appended before a failure in `write_cpp_files` are emitted with the next
+query of that executor. -/
+theorem leak_counterexample_job_blocks :
+    ∃ D T h p e, e < (runO D h s₀).execs.length ∧ ¬ HistoryIndependentOn D T h p e :=
+  ⟨D₀, Tjob, jobBlocksStay.1.1, jobBlocksStay.1.2, jobBlocksStay.2, by decide, by unfold HistoryIndependentOn; decide⟩
+
+open Witness in
+/-- (a'') Extended metadata registered on an executor survives a failed translation: the next
+query on it may use a metadata kind a fresh process refuses. -/
+theorem leak_counterexample_extended_md :
+    ∃ D T h p e, e < (runO D h s₀).execs.length ∧ ¬ HistoryIndependentOn D T h p e :=
+  ⟨D₀, Tconst, xmdStays.1.1, xmdStays.1.2, xmdStays.2, by decide, by unfold HistoryIndependentOn; decide⟩
+
+/-! ### non-vacuity: the hypotheses are satisfiable by histories that really do something -/
+
+open Witness in
+/-- a history with a declaration on the probe's own key that succeeds, a failure in
+`process_metadata`, a failure in `write_cpp_files` and a second executor is benign for the probe -/
+example : benignRunNew D₀ ⟨.atlas, [], jetPt, []⟩ s₀
+    [.new .atlas, .translate 0 jetPt [ptInt, jobBlk] okRes, .translate 0 jetPt [.methodType "xAOD::Jet" "eta" "terminal|int", .bad] okRes,
+     .translate 0 badWrite [jobBlk, .inject "blk" "x"] failWriteRes, .new .atlas,
+     .translate 1 jetPt [.methodType "xAOD::Jet" "eta" "terminal|int"] failWriteRes] = true := by decide
+
+open Witness in
+/-- and the same for a probe on executor 0 (which has had a success, a metadata failure and a
+failed write without job blocks) -/
+example : benignRunOn D₀ ⟨.atlas, [], jetPt, []⟩ 0 s₀
+    [.new .atlas, .translate 0 jetPt [ptInt, jobBlk] okRes, .translate 0 jetPt [.methodType "xAOD::Jet" "eta" "terminal|int", .bad] okRes,
+     .translate 0 badWrite [.inject "blk" "x"] failWriteRes, .new .cmsAod,
+     .translate 1 muonPt [] okRes] = true := by decide
+
+open Witness in
+/-- every witness of a counterexample is outside the hypotheses (the exclusions are not wider than needed
+for these) -/
+example : benignRunNew D₀ failedDecl.2 s₀ failedDecl.1 = false ∧ benignRunNew D₀ enumStays.2 s₀ enumStays.1 = false ∧
+    benignRunNew D₀ sharedDefault.2 s₀ sharedDefault.1 = false ∧ benignRunNew D₀ crossBackendNew.2 s₀ crossBackendNew.1 = false ∧
+    benignRunOn D₀ crossBackendReset.1.2 0 s₀ crossBackendReset.1.1 = false ∧
+    benignRunOn D₀ jobBlocksStay.1.2 0 s₀ jobBlocksStay.1.1 = false ∧
+    benignRunOn D₀ foundStays.1.2 0 s₀ foundStays.1.1 = false := by decide
+
 end FaxVerif.C07
